@@ -35,6 +35,7 @@ pub mod builder {
 
 pub mod datalog {
     use vstd::prelude::*;
+    use crate::verif_std::*;
     use crate::crypto::PublicKey;
     use crate::{error, token::public_keys::PublicKeys};
     // stand-ins for the Datalog IR types held by a token::Block (opaque in this unit)
@@ -42,6 +43,13 @@ pub mod datalog {
     #[verifier::external_body] pub struct Rule { _p: u8 }
     #[verifier::external_body] pub struct Check { _p: u8 }
 
+    //@extract biscuit-auth/src/datalog/symbol.rs :: type SymbolIndex
+    //@end
+    //@extract biscuit-auth/src/datalog/symbol.rs :: const DEFAULT_SYMBOLS
+    //@ sub \[&str; => [&'static str;
+    //@end
+    //@extract biscuit-auth/src/datalog/symbol.rs :: const OFFSET
+    //@end
     //@extract biscuit-auth/src/datalog/symbol.rs :: struct SymbolTable
     //@end
     impl Clone for SymbolTable {
@@ -69,6 +77,14 @@ pub mod datalog {
         //@ external_body
         //@ ensures ok: r is Ok ==> Self::seq_disjoint(old(self).strings_view(), other.strings_view()) && Self::seq_disjoint(old(self).public_keys.keys@, other.public_keys.keys@)
         //@ ensures table: r is Ok ==> final(self).strings_view() == old(self).strings_view() + other.strings_view() && final(self).public_keys.keys@ == old(self).public_keys.keys@ + other.public_keys.keys@
+        //@end
+        //@extract biscuit-auth/src/datalog/symbol.rs :: impl SymbolTable :: fn get_symbol
+        //@ ensures default: i < 1024 ==> (r is Some <==> i < 28)
+        //@end
+        //@extract biscuit-auth/src/datalog/symbol.rs :: impl SymbolTable :: fn print_symbol
+        //@ ensures unknown: r is Err ==> r->Err_0 == error::Format::UnknownSymbol(i)
+        //@end
+        //@extract biscuit-auth/src/datalog/symbol.rs :: impl SymbolTable :: fn print_symbol_default
         //@end
         //@extract biscuit-auth/src/datalog/symbol.rs :: impl SymbolTable :: fn is_disjoint
         //@ external_body
@@ -493,3 +509,5 @@ pub mod tspec {
 //@canary-requires token::Biscuit::block
 //@canary-requires token::Biscuit::append_with_keypair
 //@canary-requires token::unverified::UnverifiedBiscuit::verify
+//@canary default-symbol-index :: datalog::symbol::SymbolTable::get_symbol :: DEFAULT_SYMBOLS.get(i as usize).copied() ==>> Some(DEFAULT_SYMBOLS[i as usize])
+//@canary user-symbol-offset :: datalog::symbol::SymbolTable::get_symbol :: if i >= OFFSET as u64 { ==>> if i >= 28 {
